@@ -458,7 +458,7 @@ impl FixtureDatabase {
 
             let (start_char, end_char) = self.find_function_name_position(content, line, func_name);
 
-            let is_third_party = file_path.to_string_lossy().contains("site-packages")
+            let is_third_party = self.is_in_site_packages(file_path)
                 || self.is_editable_install_third_party(file_path);
             let is_plugin = self.plugin_fixture_files.contains_key(file_path);
 
@@ -625,9 +625,8 @@ impl FixtureDatabase {
                                 fixture_name, file_path, line, start_char, end_char
                             );
 
-                            let is_third_party =
-                                file_path.to_string_lossy().contains("site-packages")
-                                    || self.is_editable_install_third_party(file_path);
+                            let is_third_party = self.is_in_site_packages(file_path)
+                                || self.is_editable_install_third_party(file_path);
                             let is_plugin = self.plugin_fixture_files.contains_key(file_path);
                             let definition = FixtureDefinition {
                                 name: fixture_name.to_string(),
